@@ -79,6 +79,36 @@ CLAIMS = {
          "ANF/Go lowering of the tree is covered by C01's stage-wise oracle, not here. Trusted: Lean kernel, Sem as the meaning of Core, "
          "harness TAST walk and dumps, the driver's alpha-equivalence and value enumeration.",
     technique="Lean 4 proof (induction over fuel / rows / patterns) + differential correspondence with the real match compiler + first-match oracle on the real Core"),
+ "C08": dict(
+    category="proof",
+    text="Lean theorems over a model of lift.rs (Model/Lift.lean: Scope layers, transform_expr with the pass state threaded in the Rust's "
+         "traversal order, collect_captured, transform_closure with closure_env_<ctx>_<n> / <name>_<i> / inherent#S#S#apply naming, call "
+         "rewriting, return-type and struct-field-type rewriting, lambda_lift) on the unified Syntax.Expr, against the shared semantics Sem: "
+         "captures_exact / captures_mem / captures_nodup / captures_types (for EVERY body, parameter list and scope, collect_captured = free "
+         "variables of the body minus the parameters, restricted to the scope, each once, in first-occurrence order, typed by the scope entry), "
+         "lift_no_closures (for every input the output has no closure node), lift_preserves_partial (for every program whose lifting passes the "
+         "decidable structural check DirectFlow, every source run under Sem that ends normally or panics is reproduced by the lifted program - "
+         "same stdout, status, extern events - for every sufficiently large fuel; proved by a simulation over ALL of Sem (every node kind, all "
+         "builtins, the Ref store, go, dyn dispatch) by induction on fuel in fuel-monotone form, closure values related to (environment struct, "
+         "apply function) pairs), accepted_pair_preserves (the same for any pair the check accepts - it is run as a validator on the REAL Mono/Lift "
+         "pair of every checked program), ref_sharing (related references are the same store location and the environment struct holds, for every "
+         "captured variable bound to a Ref, that very location). Tie (L1, exact, names included): the model lifts the REAL Mono file in the REAL "
+         "pre-lift environment and its functions, closure env structs, rewritten user structs and registered function types must equal the REAL "
+         "LiftFile/GlobalLiftEnv node by node, for the corpus and for seeded closure-centred programs (every capture set, nesting up to 4, every "
+         "flow of a function value). Oracle independent of the model: the REAL Mono, Lift and ANF dumps under Sem and the REAL Go under Go.Sem must "
+         "agree whenever Go.Check accepts the Go.",
+    design_ref="§5 C08, 'C08 — as built'",
+    note="PARTIAL: DirectFlow is a hypothesis decided per program (by running the verified check on the model's output / the real output), not a "
+         "theorem about a syntactic class; the evidence reports its ratio (all generated flows except two closures sharing one struct field). The "
+         "preservation theorem is about Sem, where calling an environment struct value is defined for every flow; at the Go level closures passed "
+         "as arguments, chosen by a branch, stored in arrays / Ref cells, curried, or returned before the maker is lifted give ill-typed Go - C02's "
+         "known findings, counted here per flow and never compared behaviourally. Known finding of this check: two closures in the same struct "
+         "field make the Lift IR call the wrong apply function. Proved about the model; model = lift.rs is validated differentially (L1), not "
+         "proved. Trusted: Lean kernel, Sem/Go.Sem/Go.Check, harness dumps (the dump omits the type stored on if/let/while/go/literal nodes; the "
+         "harness checks on every real tree that the model's recomputation agrees), tools/extract.py (naming constants and shape anchors of "
+         "lift.rs regenerated on every run), the hypothesis that no local or user function is spelled like an apply function or env parameter (C19).",
+    technique="Lean 4 proof (mutual structural induction; simulation by induction on fuel) + verified validator on real pass output + "
+              "differential correspondence with lift.rs + stage-wise behavioural oracle"),
  "C10": dict(
     category="proof",
     text="Lean theorems over a model of the integer-literal pipeline and of the operator mapping, quantified over the tables regenerated from the "
